@@ -504,6 +504,28 @@ def s5(ctx, rep):
                 "members and the round trip of a member fails")
 
 
+def s5b(ctx, rep):
+    """guard table for the finite-range codec (found thin by the generic mutation audit): exp / log are applied exactly on
+    a log-scale range, on both sides of the round trip; integers are produced exactly for integer ranges"""
+    from .common import require_guard
+    P = ctx.P
+    fr = P.cls("FiniteRange")
+    for mname, fn_ in (("_map_from_int", "exp"), ("_map_to_int", "log")):
+        m = fr.methods[mname]
+        cm = cfg_of(m)
+        nodes = [n.id for n in cm.nodes if n.kind == "stmt" and any(isinstance(y, ast.Call) and fn_name(y) == fn_ for y in cm.node_walk(n.id))]
+        require_guard(ctx, rep, "S5", m, f"FiniteRange.{mname}: np.{fn_} is applied | the range is on a log scale", nodes,
+                      [("self.log_scale", lambda a: a[0] == "truth" and a[1] == "self.log_scale" and a[2] is True)],
+                      "encode and decode of a (log) finite range are no longer inverse to each other: decoded values are not grid points")
+    for cname, cls_ in (("FiniteRange", fr), ("HyperparameterRangeFiniteRange", P.cls("HyperparameterRangeFiniteRange"))):
+        m = cls_.methods["_map_from_int"]
+        cm = cfg_of(m)
+        ints = [n.id for n in cm.nodes if n.kind == "stmt" and any(isinstance(y, ast.Call) and fn_name(y) == "int" for y in cm.node_walk(n.id))]
+        require_guard(ctx, rep, "S5", m, f"{cname}._map_from_int: the value is made an int | the range is an integer range", ints,
+                      [("self.cast_int", lambda a: a[0] == "truth" and a[1] == "self.cast_int" and a[2] is True)],
+                      "float ranges decode to ints (values off the grid) and integer ranges to floats (wrong type)")
+
+
 def s6(ctx, rep):
     """a numeric bound that was not given is recognised by `is None`: 0 is a legal bound"""
     from .common import numeric_optional_params, truthiness_uses
@@ -529,4 +551,5 @@ def run(ctx, rep, tier="quick"):
     s2(ctx, rep)
     s3(ctx, rep)
     s4(ctx, rep)
+    s5b(ctx, rep)
     s6(ctx, rep)
